@@ -72,6 +72,94 @@ theorem c18_enterCall_balanced (st : FState) (caller to : Addr) (value : Nat) (i
             · simp only [openCount_append, openCount_open, announced, List.filter_cons]
               cases hd : f.debug <;> simp [hd] <;> unfold announced at h <;> omega
 
+theorem c18_enterOther_balanced (st : FState) (kind : CallKind) (caller to : Addr) (value : Nat) (input : Bytes) (gas : Nat) (f : EnterFacts)
+    (h : Balanced st) : Balanced (enterOther st kind caller to value input gas f) := by
+  unfold Balanced at *
+  unfold enterOther
+  simp only
+  split
+  · simpa [finish_events] using h
+  · split
+    · simpa [finish_events] using h
+    · split
+      · simp only [finish_events, finish_stack', openCount_append]
+        cases hd : f.debug <;> simp [openCount_close, hd, openCount] <;> omega
+      · split
+        · simp only [finish_events, finish_stack', openCount_append]
+          cases hd : f.debug <;> simp [openCount_close, hd, openCount] <;> omega
+        · simp only [openCount_append, announced, List.filter_cons]
+          cases hd : f.debug <;> simp [hd, openCount] <;> unfold announced at h <;> omega
+
+theorem c18_enterCreate_balanced (st : FState) (kind : CallKind) (caller to : Addr) (value : Nat) (input : Bytes) (gas : Nat) (f : EnterFacts)
+    (h : Balanced st) : Balanced (enterCreate st kind caller to value input gas f) := by
+  unfold Balanced at *
+  unfold enterCreate
+  simp only
+  split
+  · simpa [finish_events] using h
+  · split
+    · simpa [finish_events] using h
+    · split
+      · simpa [finish_events] using h
+      · split
+        · simpa [finish_events] using h
+        · simp only [openCount_append, openCount_open, announced, List.filter_cons]
+          cases hd : f.debug <;> simp [hd] <;> unfold announced at h <;> omega
+
+/-- the epilogue of whichever frame function owns the innermost frame closes exactly what that frame announced -/
+theorem c18_haltFrame_balanced (st : FState) (fr : OpenFrame) (rest : List OpenFrame) (ret : Option Bytes) (err : Option String)
+    (gasLeft : Nat) (post : JPResult) (hs : st.stack = fr :: rest) (h : Balanced st) :
+    Balanced (haltFrame st fr rest ret err gasLeft post) := by
+  unfold Balanced at *
+  have h' : openCount st.events = announced rest + (if fr.facts.debug then 1 else 0) := by
+    rw [h, hs]; unfold announced; simp only [List.filter_cons]
+    cases fr.facts.debug <;> simp
+  unfold haltFrame
+  split
+  · split
+    · simp only [finish_events, finish_stack', openCount_append]
+      cases hd : fr.facts.debug <;> simp [openCount_close, hd] at h' ⊢ <;> omega
+    · simp only [finish_events, finish_stack', openCount_append]
+      cases hd : fr.facts.debug <;> simp [openCount_close, hd] at h' ⊢ <;> omega
+  all_goals
+    simp only [finish_events, finish_stack', openCount_append, Bool.false_eq_true, if_false, List.append_nil]
+    cases hd : fr.facts.debug <;> simp [openCount_close, hd] at h' ⊢ <;> omega
+
+theorem c18_step_balanced (st : FState) (ev : FEvent) (h : Balanced st) : Balanced (step st ev) := by
+  cases ev with
+  | enter kind caller to value input gas f =>
+    cases kind <;> simp only [step]
+    · exact c18_enterCall_balanced st caller to value input gas f h
+    · exact c18_enterOther_balanced st _ caller to value input gas f h
+    · exact c18_enterOther_balanced st _ caller to value input gas f h
+    · exact c18_enterOther_balanced st _ caller to value input gas f h
+    · exact c18_enterCreate_balanced st _ caller to value input gas f h
+    · exact c18_enterCreate_balanced st _ caller to value input gas f h
+  | effect id => simp only [step]; split <;> exact h
+  | jkey parent slot off ty pty name => simp only [step]; split <;> exact h
+  | jchange slot off ty v => simp only [step]; split <;> exact h
+  | halt ret err gasLeft post =>
+    simp only [step]
+    split
+    · exact h
+    · rename_i fr rest hs
+      exact c18_haltFrame_balanced st fr rest ret err gasLeft post hs h
+
+/-- **C18, callback balance, every event sequence**: whatever the interpreter, the host, the precompiles and the join
+    points do, the debug callbacks emitted by the five frame functions are balanced against the open frames -/
+theorem c18_run_balanced (evs : List FEvent) : Balanced (run {} evs) := by
+  have gen : ∀ (st : FState), Balanced st → Balanced (run st evs) := by
+    induction evs with
+    | nil => intro st h; exact h
+    | cons e es ih => intro st h; exact ih _ (c18_step_balanced st e h)
+  exact gen {} (by unfold Balanced announced; simp)
+
+/-- … so when every frame has returned, every Start/Enter has had its End/Exit -/
+theorem c18_all_closed (evs : List FEvent) (h : (run {} evs).stack = []) : openCount (run {} evs).events = 0 := by
+  have := c18_run_balanced evs
+  unfold Balanced announced at this
+  rw [this, h]; simp
+
 /-- without Aspect events the fork's nested call tracer takes exactly the steps of upstream's: the only additions
     (`curJP`, Aspect frames) are never touched, and the step function's other cases are upstream's code -/
 theorem c18_calltracer_no_aspect (st : TState) (ev : TEvent) (hno : ∀ jp f t a i g v, ev ≠ .aspectEnter jp f t a i g v)
